@@ -112,6 +112,13 @@ func init() {
 			m.path.Expected = append(m.path.Expected, name)
 			return nil
 		},
+		"vsymSolverTimeout": func(m *Machine, _ *frame, _ *ssa.Function, a []value) value {
+			ms := int(m.path.Concretise(a[0].(*Term), "solver-timeout"))
+			if m.path.sol != nil && ms > 0 {
+				m.path.sol.SetTimeout(ms)
+			}
+			return nil
+		},
 		"vsymNowNS": func(m *Machine, _ *frame, _ *ssa.Function, a []value) value {
 			return m.tt.Const(64, uint64(m.clock-1_000_000_000))
 		},
